@@ -64,6 +64,9 @@ type Sched struct {
 	byGoid    map[int64]*G
 	byName    map[string]*G
 	spawnName []string // names to give to goroutines spawned by the library, in order
+	spawnOn   map[any]string // ... or by the queue their first hook call touches
+	Spawns    int      // number of spawn notes seen
+	OnSpawn   func()   // called (on the spawning goroutine) at each spawn note
 	spawned   int      // spawn notes not yet matched by a first arrival
 	free      bool     // free-running: hooks do not block
 	Timeout   time.Duration
@@ -86,7 +89,12 @@ func (s *Sched) Install() {
 		Spawn: func() {
 			s.mu.Lock()
 			s.spawned++
+			s.Spawns++
+			var f = s.OnSpawn
 			s.mu.Unlock()
+			if f != nil {
+				f()
+			}
 		},
 	})
 }
@@ -103,7 +111,13 @@ func (s *Sched) yield(kind string, queue any) {
 	}
 	var g = s.byGoid[id]
 	if g == nil {
-		if s.spawned > 0 && len(s.spawnName) > 0 {
+		if name, ok := s.spawnOn[queue]; ok && s.spawned > 0 {
+			s.spawned--
+			delete(s.spawnOn, queue)
+			g = &G{Name: name, goid: id, gate: make(chan struct{}, 1)}
+			s.byGoid[id] = g
+			s.byName[name] = g
+		} else if s.spawned > 0 && len(s.spawnName) > 0 {
 			// first hook call of a goroutine spawned by the library: adopt it
 			s.spawned--
 			g = &G{Name: s.spawnName[0], goid: id, gate: make(chan struct{}, 1)}
@@ -180,6 +194,16 @@ func (s *Sched) Exited() {
 	if managed && !free {
 		s.arrivals <- arrival{goid: id, kind: "exited"}
 	}
+}
+
+// ExpectSpawnOn: the goroutine whose first hook call is on `queue` is `name`.
+func (s *Sched) ExpectSpawnOn(queue any, name string) {
+	s.mu.Lock()
+	if s.spawnOn == nil {
+		s.spawnOn = map[any]string{}
+	}
+	s.spawnOn[queue] = name
+	s.mu.Unlock()
 }
 
 // ExpectSpawn tells the scheduler the names of the goroutines the library is
